@@ -1,6 +1,6 @@
 #!/venv/bin/python
 """Runs every seeded regression (and every revert-of-fix mutant) against the check of its property on a scratch copy of /repo and
-records the outcome in seeded/<id>/meta.json ("detected_by") and in seeded/MATRIX.md.   usage: tools/seed_matrix.py [Cxx ...] [-j N] [--tier quick]"""
+records the outcome in seeded/<id>/meta.json ("detected_by") and in seeded/MATRIX.md.   usage: tools/seed_matrix.py [Cxx ...] [-j N] [--tier quick] [--only REGEX]"""
 import concurrent.futures as cf
 import glob
 import json
@@ -13,15 +13,18 @@ V = "/verif"
 args = [a for a in sys.argv[1:] if re.fullmatch(r"C\d\d", a)]
 jobs = int(sys.argv[sys.argv.index("-j") + 1]) if "-j" in sys.argv else 3
 tier = sys.argv[sys.argv.index("--tier") + 1] if "--tier" in sys.argv else "quick"
+only = re.compile(sys.argv[sys.argv.index("--only") + 1]) if "--only" in sys.argv else None   # e.g. --only '-(M|N)$'
 items = []
 for d in sorted(glob.glob(V + "/seeded/C*-*")):
     pid = os.path.basename(d).split("-")[0]
     if args and pid not in args:
         continue
+    if only and not only.search(os.path.basename(d)):
+        continue
     items.append((os.path.basename(d), pid, d + "/patch.diff"))
 for f in sorted(glob.glob(V + "/mutants/*.diff")):
     m = re.search(r"_(C\d\d)_", f)
-    if m and (not args or m.group(1) in args):
+    if m and (not args or m.group(1) in args) and not only:
         items.append((os.path.basename(f), m.group(1), f))
 
 
